@@ -14,6 +14,8 @@ type model struct {
 	qTimeout time.Duration
 	tTimeout time.Duration
 	args     []string
+	// expectViolation names an invariant that MUST be violated (non-vacuity: the model with the named defect)
+	expectViolation string
 }
 
 func (m model) timeout(thor bool) time.Duration {
@@ -36,6 +38,7 @@ type check struct {
 	trace       string // trace specification module
 	gen         func(g *gen.G, thor bool) []gen.Program
 	batch       int      // programs per TLC batch
+	race        bool     // also run the programs in a -race, decimal_pure_go build: any race report is a violation
 	builds      []string // build-tag sets under which the programs run; the event logs must be identical (default: the default build only)
 	rule        string
 	assumptions []string
@@ -187,6 +190,16 @@ var checks = map[string]*check{
 		rule:        "GobEncode/GobDecode chains for values of 1..300 words (trailing zero words, all forms, inexact accuracies) x receivers (zero value, precision 0 with a mode, own precision and mode), the encoding/gob stream path, hand-made payloads, and valid encodings corrupted by a single bit flip (first 32 / last 8 bytes), byte overwrite of the attribute bytes, truncation at the start and at the end, extension, and mantissa words overwritten with values >= 10^19, zero or unnormalised; the encoder is validated against the specification's decoder, the decoder against WellFormedGob/DecodeGob; after every decode the receiver is used in an addition",
 		assumptions: commonAssumptions,
 		req:         []string{"GobRoundTrip:wellformed", "GobRoundTrip:prec0", "GobRoundTrip:precn", "GobMutate:corrupt-error", "GobMutate:wellformed", "GobDecode:corrupt-error", "GobStream", "GobEncode:finite"},
+	},
+	"C18": {
+		id: "C18", trace: "Trace_Core", batch: 2,
+		models: []model{{mod: "MC_Pool", quick: map[string]string{"NG": "2"}, thorough: map[string]string{"NG": "3"}},
+			{mod: "MC_Pool", quick: map[string]string{"NG": "2", "EarlyPut": "TRUE"}, expectViolation: "NoMisuse"}},
+		gen:         func(g *gen.G, thor bool) []gen.Program { return gen.Par(g, n(thor, 16, 400)) },
+		race:        true,
+		rule:        "k = 2..8 goroutines x GOMAXPROCS in {1,2,4,16} x garbage collections every 3/7 events x 1-3 iterations, each goroutine running 3-6 operations (Mul, Mul(x,x), Quo, Sqrt, Add/Sub, Cmp, Text, GobEncode, Float64, IsInt) on two shared operands of 600-4200 digits (Karatsuba scratch, basic and recursive long division) into its own receiver, under 8 threshold assignments; the scratch pool is the verif LIFO free list with buffers poisoned on get and put (a use after put corrupts the result deterministically); every goroutine event is validated against the sequential specification, ParEnd checks every register and validates the logged pool events against DecPool; the same programs also run in a -race, decimal_pure_go build (the race detector does not see assembly) where any race report fails the check",
+		assumptions: append(append([]string{}, commonAssumptions...), "data-race freedom is established for the explored schedules only; TLC's exhaustiveness is over the pool model's interleavings"),
+		req:         []string{"ParEnd", "PoolGet", "PoolPut", "Par:k2"},
 	},
 	"C19": {
 		id: "C19", models: []model{}, trace: "Trace_Core", batch: 4,
